@@ -391,7 +391,7 @@ func (g *gen) genArgs(from *Proc, callee *Proc, tail bool, fromArch bool) []Arg 
 	for i, prm := range callee.Params {
 		switch {
 		case i == 0 && from == nil:
-			args = append(args, Arg{E: &Expr{K: "c", C: int32(1 + rng.Intn(4))}})
+			args = append(args, Arg{E: &Expr{K: "c", C: int32(1 + rng.Intn(5))}})
 		case i == 0:
 			args = append(args, Arg{E: &Expr{K: "v+c", V: "d", C: -1}})
 		case prm.Ref:
